@@ -489,6 +489,7 @@ def parse_rvalue(r):
         for pre in ('raw const ', 'raw mut ', 'mut ', 'fake shallow ', 'fake ', 'two_phase '):
             if rest.startswith(pre):
                 mut = 'mut' in pre; rest = rest[len(pre):]
+                if rest.startswith('(fake) '): rest = rest[7:]          # `&raw const (fake) (*p)`: address taken only for a bounds check
                 break
         return ('ref', parse_place(rest), mut)
     if r == '()':
